@@ -72,6 +72,7 @@ type EngCfg struct {
 	RefreshScopeModes []int
 	Flows             []string // response types allowed in authorize
 	ShortLived        bool     // draw short lifespans so that expiry happens inside histories
+	ShortLivedHalf    bool     // ... in half of the cases
 	Mutate            func(c *fosite.Config)
 }
 
@@ -123,7 +124,7 @@ func NewEng(t *rapid.T, cfg EngCfg) *Eng {
 	jwt := rapid.SampledFrom(cfg.JWT).Draw(t, "jwtAccess")
 	e.rsMode = rapid.SampledFrom(cfg.RefreshScopeModes).Draw(t, "refreshScopes")
 	e.codeLife, e.atLife, e.rtLife, e.devLife, e.parLife = 15*time.Minute, time.Hour, 30*24*time.Hour, 10*time.Minute, 5*time.Minute
-	if cfg.ShortLived {
+	if cfg.ShortLived || (cfg.ShortLivedHalf && rapid.Bool().Draw(t, "shortLived")) {
 		e.codeLife = time.Duration(rapid.SampledFrom([]int{20, 60, 900}).Draw(t, "codeLife")) * time.Second
 		e.atLife = time.Duration(rapid.SampledFrom([]int{30, 120, 3600}).Draw(t, "atLife")) * time.Second
 		e.rtLife = time.Duration(rapid.SampledFrom([]int{-1, 90, 600, 86400}).Draw(t, "rtLife")) * time.Second
@@ -133,7 +134,8 @@ func NewEng(t *rapid.T, cfg EngCfg) *Eng {
 			e.rtLife = -1
 		}
 	}
-	e.w = h.NewWorld(h.Spec{Store: store, JWTAccess: jwt, RefreshScopes: refreshScopeSets[e.rsMode], Mutate: func(c *fosite.Config) {
+	fositeSession := rapid.Bool().Draw(t, "fositeSessionType")
+	e.w = h.NewWorld(h.Spec{Store: store, JWTAccess: jwt, FositeSession: fositeSession, RefreshScopes: refreshScopeSets[e.rsMode], Mutate: func(c *fosite.Config) {
 		c.AuthorizeCodeLifespan = e.codeLife
 		c.AccessTokenLifespan = e.atLife
 		c.RefreshTokenLifespan = e.rtLife
